@@ -304,7 +304,20 @@ class Group(object):
         return name in self._node().children
 
     def keys(self):
-        return list(self._node().children.keys())
+        # h5py lists members in alphabetical order of their names
+        return sorted(self._node().children.keys())
+
+    def __iter__(self):
+        return iter(self.keys())
+
+    def __len__(self):
+        return len(self._node().children)
+
+    def values(self):
+        return [self[k] for k in self.keys()]
+
+    def items(self):
+        return [(k, self[k]) for k in self.keys()]
 
 
 class Dataset(object):
